@@ -319,7 +319,22 @@ def pair_resend(R, cfgd, conns, table, pid, rng, spare="cx"):
             bound = {}
     if not cands:
         return [], R
-    j, (app, side) = rng.choice(cands)
+    # every kind of command gets its share of the duplicates, however rare it is in the history
+    kinds = sorted({R[i][0]["m"]["type"] for (i, _) in cands})
+    kind = rng.choice(kinds)
+    pool = [x for x in cands if R[x[0]][0]["m"]["type"] == kind]
+    # ... and commands on an object whose name is the empty string come first, most of the time
+    def awkward(x):
+        e1, o1 = R[x[0]]
+        fl1 = o1["hid"]["conn"][e1["c"]]
+        n = e1["m"]["nameplate"] if e1["m"]["nameplate"] != ABSENT else fl1["npId"]
+        i = e1["m"]["mailbox"] if e1["m"]["mailbox"] != ABSENT else fl1["mboxId"]
+        return (e1["m"]["type"] in ("claim", "release") and table.get("name", {}).get(n) == "") or \
+               (e1["m"]["type"] in ("open", "close") and table.get("mbox", {}).get(i) == "")
+    odd = [x for x in cands if awkward(x)]
+    if odd and rng.random() < 0.6:
+        pool = odd
+    j, (app, side) = rng.choice(pool)
     e0 = R[j][0]
     m = dict(e0["m"])
     fl = R[j][1]["hid"]["conn"][e0["c"]]
@@ -564,11 +579,13 @@ def restart_and_probe(rng, drv, profile, tid, n0):
 
 
 REGIME_CFG = {
-    "iso": dict(profile="apps", alt_profile="script2", third_profile="allociso", cfgs=[dict(allow=True, usage=True, blur=0), dict(allow=True, usage=False, blur=0)]),
+    # (idle: a restarted server that meets another app's leftovers, clients that sit subscribed for long)
+    "iso": dict(profile="apps", alt_profile="script2", third_profile="allociso", fourth_profile="idle",
+                over=dict(left_choices=["otherapp", "otherapp", "channel", "none"]), cfgs=[dict(allow=True, usage=True, blur=0), dict(allow=True, usage=False, blur=0)]),
     "restart": dict(profile="mailbox", alt_profile="script",
                     over=dict(w_stop=2.0, w_crash=0, w_advance=4, steps=45, sides=["s1", "s2", "s3"], nonstring=0.25),
                     cfgs=[dict(allow=True, usage=True, blur=0), dict(allow=True, usage=False, blur=0)]),
-    "resend": dict(profile="crowd", over=dict(conns=("c1", "c2", "c3"), names=["1", "x"]),
+    "resend": dict(profile="crowd", over=dict(conns=("c1", "c2", "c3"), names=["1", "x"], empty_name=0.4),
                    cfgs=[dict(allow=True, usage=False, blur=0), dict(allow=True, usage=True, blur=0)]),
     "config": dict(profile="nameplate", over=dict(w_advance=3, w_allocate=3, badcv=0.12), cfgs=[dict(allow=True, usage=False, blur=0)]),
     "resume": dict(profile="mailbox", over=dict(w_stop=0, w_crash=0),
@@ -590,6 +607,8 @@ def one_pair(regime, seedstr, pid):
         pname = rc["alt_profile"]
     if rc.get("third_profile") and rng.random() < 0.25:
         pname = rc["third_profile"]
+    if rc.get("fourth_profile") and rng.random() < 0.2:
+        pname = rc["fourth_profile"]
     prof = dict(plans.PROFILES[pname])
     prof.update(rc.get("over", {}))
     if regime == "restart":
